@@ -161,6 +161,12 @@ func c24(c *Ctx) {
 			}
 			if ParamV("err")(v) && c.HasFact(r, Truth(isStatus, true)) {
 				nPass++
+				// "already a status: pass through" is decided only after the transport's own error types were ruled out:
+				// a ConnectionError / NewStreamError that wraps a status would otherwise leave as a non-status error
+				for _, tn := range []string{"transport.ConnectionError", "transport.NewStreamError"} {
+					tn := tn
+					c.MustFact(r, "status-pass-through-only-after-"+tn+"-was-ruled-out", Truth(TypeAssertOk(func(t types.Type) bool { return strings.HasSuffix(strings.TrimPrefix(t.String(), "*"), tn) }), false))
+				}
 			}
 		}
 		c.Expect(nUnknown == 1 && nPass == 1, nil, f, "fallthrough-shape", "expected a pass-through arm for status errors and a final UNKNOWN")
